@@ -24,7 +24,7 @@ AXIS_SHAPE = {
     "xml_xpath::eval::ancestor_and_self": ({"xml_xpath::eval::ancestor"}, set()),
     "xml_xpath::eval::attributes": ({"attributes"}, {"child_nodes", "parent_node"}),
     "xml_xpath::eval::child": ({"child_nodes"}, {"parent_node", "attributes"}),
-    "xml_xpath::eval::descendant": ({"child_nodes", "xml_xpath::eval::descendant"}, {"parent_node", "next_sibling", "previous_sibling"}),
+    "xml_xpath::eval::descendant": ({"xml_xpath::eval::descendant"}, {"parent_node", "next_sibling", "previous_sibling"}),
     "xml_xpath::eval::descendant_and_self": ({"xml_xpath::eval::descendant"}, set()),
     "xml_xpath::eval::following_sibling": ({"next_sibling"}, {"previous_sibling"}),
     "xml_xpath::eval::preceding_sibling": ({"previous_sibling"}, {"next_sibling"}),
@@ -118,6 +118,19 @@ def run(facts, tier):
         if not ok:
             res.add(Finding("C05-shape", path.split("::")[-1], "%s: %s%s" % (path, ("does not use %s; " % missing) if missing else "",
                                                                            ("uses %s" % forbidden) if forbidden else ""), g["file"], g["line"], {}))
+    # XPath 1.0 5.3: an attribute node has a string-value and no children; the DOM of this library hands the pieces of the
+    # value out as child nodes, so the child axis has to exclude attribute context nodes (descendant goes through child)
+    g = facts.fn("xml_xpath::eval::child")
+    st3["instances"] += 1
+    tests_attr = any(str(m.get("path", "")).endswith("NodeType::Attribute") or str(m.get("path", "")).endswith("XmlNode::Attribute") for m in walk(g["body"]))
+    d = facts.fn("xml_xpath::eval::descendant")
+    via_child = "xml_xpath::eval::child" in callee_names(facts, d) or \
+        any(str(m.get("path", "")).endswith("NodeType::Attribute") for m in walk(d["body"]))
+    ok = tests_attr and via_child
+    res.oblige(1, ok)
+    if not ok:
+        res.add(Finding("C05-shape", "child|attribute", "the child / descendant axes do not exclude attribute context nodes: //@id/text() selects "
+                        "the DOM text children of the attribute, //@id/descendant-or-self::node() has two members", g["file"], g["line"], {}))
     # descendant: pre-order (child pushed before its descendants)
     g = facts.fn("xml_xpath::eval::descendant")
     st3["instances"] += 1
@@ -196,6 +209,7 @@ def run(facts, tier):
             res.add(Finding("R07-1", "document|" + prop, "node-sets returned by query are not guaranteed to be %s (see C07)" % prop, None, None, {}))
     c08.r08_3(facts, res)
     c08.r08_4(facts, res)
+    c07.fresh_key_rule(facts, res, "R07-5")
     # operators and the function library are part of "the value XPath 1.0 prescribes": same rules as C09
     from props import c09
     table = c09.r09_1(facts, res)
